@@ -275,6 +275,319 @@ def unit_checksum(ctx, harness, stats):
     stats["checksum_headers"] = len(hs)
 
 
+# ------------------------------------------------------------------ raw archive builder (generator side)
+S_IFMT, S_IFSOCK, S_IFLNK, S_IFREG, S_IFBLK, S_IFDIR, S_IFCHR, S_IFIFO = 0o170000, 0o140000, 0o120000, 0o100000, 0o060000, 0o040000, 0o020000, 0o010000
+KEY_D27 = "D27:skipped-socket-leaves-extension-records"
+KEY_D22 = "D22:sparse-data-exceeds-record"
+
+
+def encnum(v, w, style):
+    """numeric field in a chosen dialect; falls back to base-256 when octal does not fit"""
+    if v < 0:
+        return ((v + (1 << (8 * w))) % (1 << (8 * w))).to_bytes(w, "big")          # GNU: sign-extended two's complement
+    d = b"%o" % v
+    if style == "b256" or len(d) > w:
+        return bytes([0x80]) + v.to_bytes(w - 1, "big") if v < (1 << (8 * (w - 1))) else None
+    if style == "noterm" or len(d) == w:
+        return d.rjust(w, b"0")
+    if style == "nul":
+        return d.rjust(w - 1, b"0") + b"\0"
+    if style == "lead":
+        return (b" " * (w - 1 - len(d))) + d + b"\0"
+    if style == "short":
+        return d + b" " + b"\0" * (w - 1 - len(d))
+    return d.rjust(w - 1, b"0") + b" "
+
+
+def fix_checksum(h):
+    h = bytearray(h)
+    h[148:156] = b" " * 8
+    c = sum(h)
+    h[148:156] = b"%06o\0 " % c
+    return bytes(h)
+
+
+def mk_header(name=b"", mode=0o644, uid=0, gid=0, size=0, mtime=0, typeflag=b"0", linkname=b"", dialect="ustar", prefix=b"",
+              maj=0, minr=0, style="term", tail=None, uname=b"", gname=b"", bad_checksum=False):
+    h = bytearray(512)
+    h[0:100] = name[:100].ljust(100, b"\0")
+    h[100:108] = encnum(mode, 8, style)
+    h[108:116] = encnum(uid, 8, style) or encnum(0, 8, style)
+    h[116:124] = encnum(gid, 8, style) or encnum(0, 8, style)
+    h[124:136] = encnum(size, 12, style)
+    h[136:148] = encnum(mtime, 12, style)
+    h[156:157] = typeflag
+    h[157:257] = linkname[:100].ljust(100, b"\0")
+    if dialect == "ustar":
+        h[257:263] = b"ustar\0"; h[263:265] = b"00"
+    elif dialect in ("gnu", "prepos"):
+        h[257:263] = b"ustar "; h[263:265] = b" \0"
+    elif dialect == "junk":
+        h[257:263] = b"ustaR\0"; h[263:265] = b"00"
+    h[265:297] = uname[:32].ljust(32, b"\0")
+    h[297:329] = gname[:32].ljust(32, b"\0")
+    if dialect != "v7":
+        h[329:337] = encnum(maj, 8, style)
+        h[337:345] = encnum(minr, 8, style)
+    if tail is not None:
+        h[345:345 + len(tail)] = tail
+    elif prefix:
+        h[345:500] = prefix[:155].ljust(155, b"\0")
+    out = fix_checksum(h)
+    if bad_checksum:
+        out = bytearray(out); out[150] ^= 1; out = bytes(out)
+    return out
+
+
+def pad512(b):
+    return b + b"\0" * ((-len(b)) % 512)
+
+
+def pax_record(key, value, length=None):
+    body = b" " + key + b"=" + value + b"\n"
+    n = len(body)
+    l = n + len(str(n))
+    if len(str(l)) + n != l:
+        l = n + len(str(l))
+    if length is not None:
+        l = length
+    return str(l).encode() + body
+
+
+def pax_member(records, name=b"pax/hdr", dialect="ustar", typeflag=b"x"):
+    payload = b"".join(records)
+    return mk_header(name=name, size=len(payload), typeflag=typeflag, dialect=dialect) + pad512(payload)
+
+
+def gnu_long(typeflag, payload, nul=True, dialect="gnu"):
+    p = payload + (b"\0" if nul else b"")
+    return mk_header(name=b"././@LongLink", size=len(p), typeflag=typeflag, dialect=dialect, mode=0) + pad512(p)
+
+
+NAME_LENS = [1, 2, 50, 98, 99, 100, 101, 102, 154, 155, 156, 157, 199, 200, 254, 255, 256, 257, 300, 1000]
+NUM_VALUES = [0, 1, 7, 8, 0o7777, (1 << 21) - 1, 1 << 21, (1 << 24) - 1, 1 << 24, (1 << 31) - 1, 1 << 31, (1 << 32) - 1, 1 << 32,
+              (1 << 33) - 1, 1 << 33, (1 << 33) + 5, (1 << 36) - 1, 1 << 36, (1 << 40) + 3, (1 << 56) - 1, (1 << 63) - 1]
+MTIMES = [-(1 << 62), -(1 << 33), -(1 << 31) - 1, -1, 0, 1, 1542905892, (1 << 31) - 1, 1 << 31, (1 << 32) - 1, 1 << 32, (1 << 33) - 1, 1 << 33,
+          (1 << 36) - 1, 1 << 36, (1 << 62)]
+
+
+def gen_name(rng, n, kind="path"):
+    """a path of exactly n bytes, components <= 60 bytes, no '.'/'..' components, NUL free"""
+    alpha = b"abcdefghijklmnopqrstuvwxyzABCDEFXYZ0123456789_-+. \xc3\xa4"
+    out = bytearray()
+    while len(out) < n:
+        room = n - len(out)
+        k = min(room, rng.randint(1, 60))
+        if room - k == 1:
+            k += 1
+        comp = bytes(rng.choice(alpha) for _ in range(k))
+        if comp.strip(b".") == b"" or comp[:1] in b" ":
+            comp = b"x" + comp[1:]
+        out += comp
+        if len(out) < n:
+            out += b"/"
+    return bytes(out[:n]) if out[n - 1:n] != b"/" else bytes(out[:n - 1] + b"z")
+
+
+def gen_wentry(rng):
+    """arguments of write_tar_header as sqfs2tar would pass them (plus library-level extremes)"""
+    kind = rng.choice(["file", "file", "dir", "slink", "slink", "chr", "blk", "fifo", "sock", "hard", "hard"])
+    nlen = rng.choice(NAME_LENS + [rng.randint(1, 300)])
+    name = gen_name(rng, nlen)
+    fmtbits = {"file": S_IFREG, "dir": S_IFDIR, "slink": S_IFLNK, "chr": S_IFCHR, "blk": S_IFBLK, "fifo": S_IFIFO, "sock": S_IFSOCK, "hard": S_IFLNK}[kind]
+    if kind == "dir":
+        name += b"/"
+    mode = fmtbits | (0o777 if kind in ("slink", "hard") else rng.choice([0, 0o644, 0o755, 0o7777, rng.randrange(0o10000)]))
+    uid = rng.choice(NUM_VALUES + [rng.randrange(1 << 32)])
+    gid = rng.choice(NUM_VALUES + [rng.randrange(1 << 32)])
+    mtime = rng.choice(MTIMES + [rng.randrange(1 << 32)])
+    size = rng.choice(NUM_VALUES) if kind == "file" else 0
+    target = None
+    if kind in ("slink", "hard"):
+        target = gen_name(rng, rng.choice(NAME_LENS + [rng.randint(1, 300)]))
+        size = len(target)
+    maj, minr = (rng.choice([0, 1, 8, 255, 256, 4095, (1 << 21) - 1, 1 << 21, (1 << 32) - 1]), rng.choice([0, 1, 255, 256, (1 << 20) - 1, (1 << 24), (1 << 32) - 1])) \
+        if kind in ("chr", "blk") else (0, 0)
+    xattrs = []
+    if kind != "hard" and rng.random() < 0.4:
+        for _ in range(rng.randint(1, 4)):
+            k = rng.choice([b"user.", b"security.", b"trusted.", b"system."]) + bytes(rng.choice(b"abcXYZ_.09") for _ in range(rng.randint(1, 40)))
+            vl = rng.choice([0, 1, 2, 5, 60, 70, 71, 72, 73, 74, 75, 76, 77, 78, 79, 80, 800, 9900, 9960, 9961, 9962, 9963, 9964, 9965, 9966, 9967, 9968, 9969, 9970, rng.randint(0, 200)])
+            vl = max(0, vl - len(k))
+            v = bytes(rng.choice([0, 10, 61, 32, 0xff, rng.randrange(256)]) for _ in range(vl))
+            xattrs.append((k, v))
+    flags = 2 if kind == "hard" else 0
+    counter = rng.choice([0, 1, 9, 10, 99, 100, 12345, (1 << 32) - 1])
+    return dict(kind=kind, flags=flags, mode=mode, uid=uid, gid=gid, size=size, mtime=mtime, maj=maj, min=minr, counter=counter,
+                name=name, target=target, xattrs=xattrs)
+
+
+def enc_line(op, e):
+    xs = "".join(" %s %s" % (tok(k), tok(v)) for k, v in e["xattrs"])
+    return "%s %d %o %d %d %d %d %d %d %d %s %s%s" % (op, e["flags"], e["mode"], e["uid"], e["gid"], e["size"], e["mtime"], e["maj"], e["min"],
+                                                     e["counter"], tok(e["name"]), "null" if e["target"] is None else tok(e["target"]), xs)
+
+
+def parse_dec(line):
+    """'ok k=v k=v …' -> dict"""
+    if not line.startswith("ok "):
+        return None
+    d = {}
+    for kv in line[3:].split():
+        k, _, v = kv.partition("=")
+        d[k] = v
+    return d
+
+
+def roundtrip_failures(e, d):
+    """header round trip evaluated on the implementation: which fields of the entry did not survive write_tar_header -> read_header"""
+    bad = []
+    if d is None:
+        return ["not-decoded"]
+    def hx(t):
+        return None if t == "null" else untok(t)
+    if hx(d["name"]) != e["name"]:
+        bad.append("name")
+    kind = e["kind"]
+    fm = e["mode"] & S_IFMT
+    if kind == "hard":
+        if d["hl"] != "1":
+            bad.append("hardlink-flag")
+        if hx(d["link"]) != e["target"]:
+            bad.append("link")
+        if int(d["mode"], 8) != (e["mode"] & 0o7777):
+            bad.append("mode")
+    else:
+        want_mode = (S_IFLNK | 0o777) if fm == S_IFLNK else e["mode"]
+        if int(d["mode"], 8) != want_mode:
+            bad.append("mode")
+        if fm == S_IFLNK and hx(d["link"]) != e["target"]:
+            bad.append("link")
+        if d["hl"] != "0":
+            bad.append("hardlink-flag")
+    if int(d["uid"]) != e["uid"]:
+        bad.append("uid")
+    if int(d["gid"]) != e["gid"]:
+        bad.append("gid")
+    if int(d["mtime"]) != e["mtime"]:
+        bad.append("mtime")
+    if fm == S_IFREG and kind != "hard" and (int(d["rsize"]) != e["size"] or int(d["asize"]) != e["size"]):
+        bad.append("size")
+    if fm in (S_IFCHR, S_IFBLK) and (int(d["maj"]) != e["maj"] or int(d["min"]) != e["min"]):
+        bad.append("devno")
+    got_x = [] if d["xattr"] == "-" else [tuple(untok(t) for t in p.split(":")) for p in d["xattr"].split(",")]
+    if sorted(got_x) != sorted(e["xattrs"]) or got_x != list(reversed(e["xattrs"])):
+        bad.append("xattr")
+    if d["unk"] != "0":
+        bad.append("unknown-record")
+    return bad
+
+
+def in_roundtrip_domain(e):
+    """the hypotheses of header_roundtrip: what write_tar_header can represent"""
+    if e["uid"] >= 127 << 56 or e["gid"] >= 127 << 56:
+        return False
+    if any(b"=" in k or b"\0" in k for k, _ in e["xattrs"]):
+        return False
+    if e["maj"] >= 1 << 31 or e["min"] >= 1 << 31:               # `int maj = major(rdev)` sign-extends
+        return False
+    return True
+
+
+def unit_headers(ctx, harness, stats):
+    rng = ctx.rng
+    n = 1500 if ctx.quick() else 30000
+    es = [gen_wentry(rng) for _ in range(n)]
+    lines = [enc_line("enc", e) for e in es]
+    impl, crash = run_impl(ctx, harness, lines)
+    if crash:
+        k, rc, err = crash
+        ctx.violation("crash:enc", "write_tar_header aborted (rc=%s) on %s: %s" % (rc, lines[min(k, len(lines) - 1)][:200], err[-300:]),
+                      {"unit": [lines[min(k, len(lines) - 1)]], "stderr": err})
+        return
+    model = run_model(ctx, lines)
+    cur = run_model(ctx, [enc_line("enccur", e) for e in es])
+    # decode the implementation's own output with the implementation (round trip on the real code)
+    l2, idx = [], []
+    for i, e in enumerate(es):
+        if impl[i].startswith("ok "):
+            l2.append("dec " + impl[i][3:] + "00" * 1024); idx.append(i)
+    back, crash2 = run_impl(ctx, harness, l2)
+    if crash2:
+        k, rc, err = crash2
+        ctx.violation("crash:dec", "read_header aborted (rc=%s) on the writer's own output: %s" % (rc, err[-300:]),
+                      {"unit": [l2[min(k, len(l2) - 1)]], "stderr": err})
+        return
+    back_model = run_model(ctx, l2)
+    backmap = dict(zip(idx, back))
+    hist = {"kinds": {}, "name_len": {}, "link_len": {}, "ext_records": {"K": 0, "L": 0, "x": 0}, "num_enc": {"octal": 0, "noterm": 0, "b256": 0}}
+    for j, i in enumerate(idx):
+        if back[j] != back_model[j]:
+            stats["disagreements_checked"] += 1
+            report(ctx, "dec-corr", "dec-corr:" + vlib.sha(l2[j])[:12], "read_header: model and code differ on the writer's output for %s: impl=%s model=%s" % (
+                lines[i][:120], back[j][:300], back_model[j][:300]), {"unit": [l2[j]]}, found_input=False)
+    for i, e in enumerate(es):
+        hist["kinds"][e["kind"]] = hist["kinds"].get(e["kind"], 0) + 1
+        b = "<100" if len(e["name"]) < 100 else ("100" if len(e["name"]) == 100 else ">100")
+        hist["name_len"][b] = hist["name_len"].get(b, 0) + 1
+        if e["target"] is not None:
+            b = "<100" if len(e["target"]) < 100 else ("100" if len(e["target"]) == 100 else ">100")
+            hist["link_len"][b] = hist["link_len"].get(b, 0) + 1
+        stats["nontrivial"].add(("enc", lines[i][:200]))
+        if e["kind"] == "sock":
+            # specification: an unsupported entry leaves the stream untouched
+            if impl[i] == "err -":
+                pass
+            elif impl[i] == cur[i] and impl[i].startswith("err "):
+                stats["disagreements_checked"] += 1
+                ctx.violation(KEY_D27, "write_tar_header appends %d bytes of extension records (PAX 'x' / GNU 'L') for a socket and then returns "
+                              "SQFS_ERROR_UNSUPPORTED; sqfs2tar skips the socket and the next member inherits them" % (len(impl[i]) // 2 - 2),
+                              {"unit": [lines[i]], "impl": impl[i][:200], "model": model[i]})
+            else:
+                stats["disagreements_checked"] += 1
+                report(ctx, "enc-sock", "enc-sock:" + vlib.sha(lines[i])[:12], "write_tar_header on a socket: %s (model %s)" % (impl[i][:100], model[i][:100]),
+                       {"unit": [lines[i]]})
+            continue
+        if impl[i].startswith("ok "):
+            raw = untok(impl[i][3:])
+            for off in range(0, len(raw), 512):
+                blk = raw[off:off + 512]
+                if blk[257:263] == b"ustar " and blk[156:157] in b"KLx":
+                    hist["ext_records"][blk[156:157].decode()] += 1
+            last = raw[-512:]
+            for fo, fw in ((108, 8), (116, 8), (124, 12), (136, 12)):
+                f = last[fo:fo + fw]
+                hist["num_enc"]["b256" if f[0] & 0x80 else ("octal" if f[-1:] == b" " else "noterm")] += 1
+        bad = roundtrip_failures(e, parse_dec(backmap.get(i, "")))
+        if impl[i] != model[i]:
+            stats["disagreements_checked"] += 1
+            report(ctx, "enc-corr", "enc:" + vlib.sha(lines[i])[:12], "write_tar_header: model and code differ on %s (round trip on the real code: %s)" % (
+                lines[i][:160], bad or "ok"), {"unit": [lines[i]], "impl": impl[i][:400], "model": model[i][:400]},
+                found_input=bool(bad) and in_roundtrip_domain(e))
+        elif bad and in_roundtrip_domain(e):
+            stats["disagreements_checked"] += 1
+            report(ctx, "enc-rt", "header-roundtrip:%s:%s" % (e["kind"], "+".join(bad)), "write_tar_header -> read_header loses %s for %s" % (bad, lines[i][:200]),
+                   {"unit": [lines[i], "dec " + impl[i][3:]], "decoded": backmap.get(i, "")[:400]})
+    stats["evaluations"] += 3 * len(lines) + 2 * len(l2)
+    stats["enc_entries"] = len(es)
+    stats["enc_hist"] = hist
+    stats["samples"].append({"op": lines[0][:200], "impl": impl[0][:120] + "…", "decoded_back": backmap.get(0, "")[:300]})
+    # prefix_digit_len: the self-referential PAX length
+    pl = list(range(0, 2000)) + [10 ** k + d for k in range(1, 19) for d in (-20, -12, -11, -10, -9, -3, -2, -1, 0, 1) if 10 ** k + d >= 0] + [rng.randrange(1 << 40) for _ in range(500)]
+    lines = ["pdl %d" % x for x in pl]
+    impl, _ = run_impl(ctx, harness, lines)
+    model = run_model(ctx, lines)
+    for x, a, b in zip(pl, impl, model):
+        ok = a.isdigit() and len(str(x + int(a))) == int(a)
+        if not ok:
+            stats["disagreements_checked"] += 1
+            report(ctx, "pdl", "pdl:%d" % x, "prefix_digit_len(%d) = %s is not a fixed point" % (x, a), {"unit": ["pdl %d" % x]})
+        elif a != b:
+            stats["disagreements_checked"] += 1
+            report(ctx, "pdl-corr", "pdl-corr:%d" % x, "prefix_digit_len(%d): code %s model %s" % (x, a, b), {"unit": ["pdl %d" % x]}, found_input=False)
+    stats["evaluations"] += 2 * len(lines)
+
+
 # ------------------------------------------------------------------ entry points
 def run(ctx):
     ok, problems = vlib.proof_gate(ctx, MODULE, REQUIRED)
@@ -284,8 +597,10 @@ def run(ctx):
     stats = {"evaluations": 0, "disagreements_checked": 0, "nontrivial": set(), "samples": []}
     t0 = time.time()
     harness = build_harness(ctx)
-    unit_numbers(ctx, harness, stats)
-    unit_checksum(ctx, harness, stats)
+    for fn in (unit_numbers, unit_checksum, unit_headers):
+        t1 = time.time()
+        fn(ctx, harness, stats)
+        ctx.log("%s: %.1fs" % (fn.__name__, time.time() - t1))
     stats["unit_wall_s"] = round(time.time() - t0, 1)
     tools_stats = {}
     c04_tools = None
